@@ -33,6 +33,7 @@ def alphabet(version: str, thorough: bool) -> list:
         "4;0;0;0;0;",
         "2;254;0;0;3;x",
         "1;3;1;0;2;a;b",
+        "1;3;1;0;2;a",
         '1;3;1;0;2;"q"',
         "1;3;1;0;-1;é",
         "1;0;1;0;47;",
@@ -47,10 +48,14 @@ def alphabet(version: str, thorough: bool) -> list:
     return evs
 
 
-def roundtrip(nodes: dict) -> list:
-    """save -> load into an empty registry -> compare. Returns [(kind, text)]."""
+def roundtrip(nodes: dict, persistence=None, vfs=None) -> list:
+    """save -> load into an empty registry -> compare. Returns [(kind, text)].
+    With `persistence` the save is done by that (long-lived) Persistence object on its own file system."""
     out = []
-    kind, val, vfs = pers.save_nodes(nodes)
+    if persistence is not None:
+        kind, val = pers.run(persistence.save, vfs)
+    else:
+        kind, val, vfs = pers.save_nodes(nodes)
     if kind != "ok":
         return [(f"save-failed:{type(val).__name__}", f"save raised {val!r}")]
     raw = bytes(vfs.files[pers.PATH])
@@ -105,7 +110,13 @@ def roundtrip(nodes: dict) -> list:
 class Monitor:
     def __init__(self, cfg: dict) -> None:
         self.version = cfg["version"]
-        self.s = Session(self.version)
+        from aiomysensors.gateway import Config
+
+        from .. import fsshim
+
+        # the gateway's own Persistence object does every save of the history (a cache inside it would show)
+        self.s = Session(self.version, Config(persistence_file=pers.PATH))
+        self.vfs = fsshim.VFS()
         self._alpha = alphabet(self.version, cfg.get("thorough", False))
         self.nontrivial = False
         self.last_desc = None
@@ -120,7 +131,7 @@ class Monitor:
         nodes = self.s.gateway.nodes
         self.nontrivial = bool(nodes)
         f = line.split(";")
-        for kind, text in roundtrip(nodes):
+        for kind, text in roundtrip(nodes, self.s.gateway.persistence, self.vfs):
             viols.append((f"C13|{kind}", f"[{self.version}] after line {line!r} registry {nodes!r}: {text}"[:900], None))
         return viols
 
